@@ -6,5 +6,9 @@ const TraceAvailable = false
 
 // C03 needs the instrumented build; without it nothing can be observed.
 func C03(c *Ctx) {
+	if c.Mode == "emit-images" {
+		c03Emit(c)
+		return
+	}
 	c.Inconclusive("source-level leakage tracer not available in this build configuration")
 }
